@@ -1061,6 +1061,33 @@ func runFacts(repo, outdir string) error {
 		}
 	}
 
+	// ---------- segment writer: what a failed append left behind the tail is removed before the next write ----------
+	{
+		sy, err := segP.fn("Writer", "sync")
+		if err != nil {
+			return err
+		}
+		src := segP.src(sy.Body)
+		iClear := strings.Index(src, "w.clearStaleTail()")
+		iSet := strings.Index(src, "w.writer.staleTail = true")
+		iFlush := strings.Index(src, "w.flush()")
+		iSync := strings.Index(src, "w.wf.Sync()")
+		iReset := strings.Index(src, "w.writer.staleTail = false")
+		guarded := false
+		ast.Inspect(sy.Body, func(n ast.Node) bool {
+			if is, ok := n.(*ast.IfStmt); ok && strings.Contains(segP.src(is.Cond), "staleTail") && strings.Contains(segP.src(is.Body), "clearStaleTail()") && strings.Contains(segP.src(is.Body), "return err") {
+				guarded = true
+			}
+			return true
+		})
+		ok := guarded && iClear >= 0 && iClear < iSet && iSet < iFlush && iFlush < iSync && iSync < iReset
+		lr := newLean("SegWriter.lean", "segment/writer.go (sync)")
+		lr.raw(fmt.Sprintf("/-- `Writer.sync`: while the flag says an earlier write was not followed by a successful commit, `clearStaleTail()` runs first and its error is returned; the flag is set before the write and reset only after the fsync succeeded (the `dirty` flag of Model/SegmentRepair.lean) -/\ndef writerClearsStaleTailBeforeWrite : Bool := %v\n\n", ok))
+		if err := lr.finish(outdir); err != nil {
+			return err
+		}
+	}
+
 	// ---------- read path buffer discipline (Pool.lean): the guards of Model.Pool, read from the call sites ----------
 	if err := genPoolCfg(walP, segP, outdir); err != nil {
 		return err
